@@ -730,6 +730,10 @@ func (h *hist) lifeRun(p lifePath) {
 				return
 			}
 			l.stats["attempts"]++
+			if h.ref.n.Chain.Head.Flags().HasFlag(types.ValidationFinished) {
+				h.lifeSkip(idx, s, "the block of an attempt ended the epoch")
+				return
+			}
 			included := false
 			for _, id := range h.txsAt[h.ref.n.Chain.Head.Height()] {
 				if id == rec.id {
